@@ -47,6 +47,9 @@ def local_origin(body, local, depth=0):
     if defs and all('rv' in d and ((d['rv']['k'] == 'use' and (d['rv']['op']['k'] == 'const' or _is_step_of(body, local, d['rv']['op'])))
                                    ) for bi, d in defs):
         return 'counter:%s' % body.locals[local]
+    if any('rv' in d and d['rv']['k'] == 'use' and _is_step_of(body, local, d['rv']['op']) for bi, d in defs):
+        # stepped by a constant, but also assigned otherwise: an accumulator
+        return 'acc:%s' % body.locals[local]
     return body.local_names.get(local, '_%d' % local)
 
 
